@@ -310,8 +310,11 @@ def emit(seed, tier, with_numpy=False):
                     job["rets"] = sorted({nreg - 1, rng.below(nreg), rng.below(nreg)})
                 if drv == "third_partial_derivative_vec":
                     job["ijk"] = [rng.below(n), rng.below(n), rng.below(n)]
+                    if n <= 4:  # every pattern of coinciding indices, explicitly
+                        for ijk in ((0, 0, 1), (1, 0, 0), (0, 1, 0), (n - 1, n - 1, n - 1), (0, 1, n - 1)):
+                            jobs.append(dict(job, ijk=list(ijk)))
                 jobs.append(job)
-        for m, n in ((1, 1), (2, 3), (5, 5), (3, 1), (1, 5), (6, 2), (2, 6)) if tier == "quick" else [(m, n) for m in range(1, 8) for n in range(1, 8)]:
+        for m, n in [(m, n) for m in range(1, 7) for n in range(1, 7)]:
             x, y = point(rng, m), point(rng, n)
             re = list(x) + list(y)
             ops = gen_ops(rng, re, 3 + rng.below(6))
